@@ -110,10 +110,11 @@ def apply_op(U, op, letters):
     if k in ("sum_to", "sum_over", "cumsum", "shares", "cast_to"):
         x = arr("x")
         d = op["dims"]
+        dn = tuple(build.udim(U, l)["name"] for l in d) if op.get("by_name") else tuple(d)  # dims named by name or by letter
         if k == "sum_to":
-            res, exp = x.sum_to(tuple(d)), list(d)
+            res, exp = x.sum_to(dn), list(d)
         elif k == "sum_over":
-            res, exp = x.sum_over(tuple(d)), [l for l in letters["x"] if l not in d]
+            res, exp = x.sum_over(dn), [l for l in letters["x"] if l not in d]
         elif k == "cumsum":
             res, exp = x.cumsum(d[0]), list(letters["x"])
         elif k == "shares":
@@ -303,6 +304,8 @@ def cases(draw, max_dims=4, max_len=3):
             op["dims"] = [xl[draw(st.integers(0, len(xl) - 1))]]
         else:
             op["dims"] = draw(gen.ordered_subtuple(xl, min_size=1 if kind == "shares" else 0))
+            if kind in ("sum_to", "sum_over"):
+                op["by_name"] = draw(st.booleans())
     elif kind == "cast_to":
         xl = new("x", min_dims=1)
         extra = draw(gen.ordered_subtuple([l for l in allL if l not in xl]))
